@@ -118,6 +118,115 @@ fn family_match(r: &mut StdRng, scn: usize, fam: &str, n_req: usize, out: &mut V
   Ok(n)
 }
 
+/// Order-preserving integer image of an f32 (fits TLC's 32-bit integers).
+pub fn sbits(x: f32) -> i64 {
+  let b = x.to_bits();
+  if b & 0x8000_0000 != 0 {
+    -((b & 0x7fff_ffff) as i64)
+  } else {
+    b as i64
+  }
+}
+
+#[derive(Clone, Debug)]
+pub struct SortSpecA {
+  pub field: String,
+  pub kind: &'static str,
+  pub desc: Option<bool>,
+}
+
+pub fn gen_sort(r: &mut StdRng) -> Vec<SortSpecA> {
+  let n = r.gen_range(0..=3);
+  let mut out: Vec<SortSpecA> = Vec::new();
+  for _ in 0..n {
+    let (f, k) = *pick(r, &[("_score", "score"), ("tag", "kw"), ("cat", "kw"), ("year", "i64"), ("rank", "i64"), ("price", "f64")]);
+    if out.iter().any(|s| s.field == f) {
+      continue;
+    }
+    out.push(SortSpecA { field: f.to_string(), kind: k, desc: match r.gen_range(0..3) { 0 => None, 1 => Some(false), _ => Some(true) } });
+  }
+  out
+}
+
+pub fn render_sort(s: &[SortSpecA]) -> Value {
+  Value::Array(
+    s.iter()
+      .map(|x| match x.desc {
+        Some(d) => json!({"field": x.field, "order": if d { "desc" } else { "asc" }}),
+        None => json!({"field": x.field}),
+      })
+      .collect(),
+  )
+}
+
+/// Abstract sort plan: the default plan is score descending; the default order is ascending
+/// except for `_score` (README "Sorting").
+pub fn abstract_sort(s: &[SortSpecA]) -> Value {
+  if s.is_empty() {
+    return json!([{"kind": "score", "f": "_score", "desc": true}]);
+  }
+  Value::Array(
+    s.iter()
+      .map(|x| json!({"kind": x.kind, "f": x.field, "desc": x.desc.unwrap_or(x.kind == "score")}))
+      .collect(),
+  )
+}
+
+pub fn obs_full(res: &std::result::Result<SearchResult, String>) -> Value {
+  match res {
+    Ok(r) => json!({
+      "ok": true, "err": "",
+      "ids": r.hits.iter().map(|h| h.doc_id.clone()).collect::<Vec<_>>(),
+      "scores": r.hits.iter().map(|h| e4(h.score)).collect::<Vec<_>>(),
+      "sbits": r.hits.iter().map(|h| sbits(h.score)).collect::<Vec<_>>(),
+      "total": r.total_hits_estimate, "hascursor": r.next_cursor.is_some(),
+      "cursor": r.next_cursor.clone().unwrap_or_default(),
+      "aggs": serde_json::to_string(&r.aggregations).unwrap_or_default(),
+      "suggest": serde_json::to_string(&r.suggest).unwrap_or_default(),
+    }),
+    Err(e) => json!({"ok": false, "err": e, "ids": [], "scores": [], "sbits": [], "total": 0, "hascursor": false,
+                      "cursor": "", "aggs": "", "suggest": ""}),
+  }
+}
+
+/// C10: order and scores.
+fn family_rank(r: &mut StdRng, scn: usize, n_req: usize, out: &mut Vec<Value>) -> Result<usize> {
+  let mut knobs = Knobs::default();
+  let absolute = chance(r, 2, 3);
+  knobs.deletions = !absolute;
+  let storage = storage_kind(r);
+  let b = build_index(r, &knobs, storage)?;
+  let reader = b.idx.reader()?;
+  let mut dict = Dict::new();
+  let corpus = corpus_event(&b, &reader, scn, &mut dict)?;
+  let cfg = GenCfg { depth: 2, boosts: true, scoring_wrappers: true, filters_in_bool: true, expansions: true, nested_filters: false };
+  let n_slots = corpus["docs"].as_array().map(|a| a.len()).unwrap_or(0);
+  let mut searches = Vec::new();
+  for _ in 0..n_req {
+    let depth = r.gen_range(0..=cfg.depth);
+    let q = gen_query(r, depth, &cfg);
+    let filt = if chance(r, 1, 5) { Some(gen_filter(r, 1, false, "")) } else { None };
+    let sort = gen_sort(r);
+    let limit = if chance(r, 1, 2) { n_slots + 5 } else { r.gen_range(1..=6) };
+    let exec = *pick(r, &["bm25", "wand", "bmw"]);
+    let mut req = base_request(&q, filt.as_ref(), limit, exec);
+    req["sort"] = render_sort(&sort);
+    let res = run_search(&reader, &req);
+    let filters: Vec<Value> = filt.iter().map(|f| abstract_filter(f, &mut dict)).collect();
+    searches.push(json!({
+      "ev": "search", "check": "rank", "prop": "C10", "absolute": absolute, "limit": limit, "exec": exec,
+      "q": abstract_query(&b.schema, &q, &default_fields(), true, 1.0, &mut dict),
+      "filters": filters, "sort": abstract_sort(&sort), "obs": obs_full(&res), "req": req.to_string(),
+    }));
+  }
+  out.push(json!({"ev": "reset", "scn": scn, "fam": "rank", "storage": storage, "schema": b.schema_json["text_fields"].clone()}));
+  out.push(json!({"ev": "dict", "entries": dict.to_json()}));
+  out.push(corpus);
+  let n = searches.len();
+  out.extend(searches);
+  Ok(n)
+}
+
 pub fn main(args: &Args) -> Result<()> {
   let seed = args.u64("seed", 1);
   let fam = args.str("family", "query");
@@ -131,6 +240,7 @@ pub fn main(args: &Args) -> Result<()> {
     let mut evs = Vec::new();
     let n = match fam.as_str() {
       "query" | "filter" => family_match(&mut r, scn, &fam, n_req, &mut evs)?,
+      "rank" => family_rank(&mut r, scn, n_req, &mut evs)?,
       other => anyhow::bail!("unknown search family {other}"),
     };
     total += n;
